@@ -25,7 +25,7 @@ import (
 
 func init() {
 	Register(&Scenario{
-		Name: "privacy", Props: []string{"C18"}, CrashTo: "",
+		Name: "privacy", Knobs: true, Props: []string{"C18"}, CrashTo: "",
 		Horizon: 30 * time.Hour, MaxSteps: 2000000, Weight: 1, Main: privacyMain,
 	})
 }
@@ -83,8 +83,8 @@ func privacyMain(rc *RunCtx) {
 	w.SysIP6 = simrt.Pick(st, "", "2001:db8::7")
 	spec := GenTorSpec(st, SpecOpts{
 		MaxPieces: 4, MultiFile: 1,
-		Trackers:  [][]string{{"http://tracker.example/announce"}, {"udp://utracker.example:6969/announce"}},
-		URLList:   []string{"http://ws.example/base/"},
+		Trackers: [][]string{{"http://tracker.example/announce"}, {"udp://utracker.example:6969/announce"}},
+		URLList:  []string{"http://ws.example/base/"},
 	})
 	env := &privEnv{rc: rc, w: w, proxied: proxied}
 	env.setConf(peer.TorConf{DhtMode: mode, UseTrackers: useTr, UseWebseeds: useWs}, 0)
@@ -257,6 +257,9 @@ func privacyMain(rc *RunCtx) {
 	simrt.Probe(fmt.Sprintf("cell-%02d", cell))
 	// what peers were told / whether they got in
 	for _, p := range peers {
+		if proxied && p.RepliesToOurHandshake > 0 {
+			rc.Fail("C18", "incoming-answered", "", "a proxied torrent answered the handshake of an incoming connection (from %s) with its own: info-hash and peer id, sent from its real address", p.Cfg.Name)
+		}
 		if proxied && p.Inbound && p.Ready {
 			rc.Fail("C18", "incoming-accepted", "", "a proxied torrent accepted the incoming connection of %s", p.Cfg.Name)
 		}
